@@ -127,6 +127,8 @@ func (ex *Exec) harnessCall(fr *frame, fn *ssa.Function, args []Value) Value {
 	case "verifMapOrder":
 		ex.mapOrder = ex.concreteInt(args[0].(*Term), "map order")
 		return nil
+	case "verifNativeRepeat":
+		return i64(1)
 	case "verifMode":
 		ex.modes[argStr(args[0])] = true
 		return nil
